@@ -1,9 +1,9 @@
 SPECIFICATION Spec
 CONSTANTS
   Forms = {"esc-dq", "esc-sq-two", "esc-z", "esc-call", "esc-call-noparen", "esc-table", "esc-return", "long0", "long1", "cmt0", "cmt2", "cmt-trailing"}
-  Conts = {"0", "2", "6", "tab"}
-  Wraps = {"top", "if-4", "if-0", "if-tab", "nest-2", "nest-4", "deep-4"}
+  Conts = {"0", "6", "tab"}
+  Wraps = {"top", "if-4", "if-0", "if-tab", "nest-2", "deep-4"}
   Breaks = {"LF", "CRLF"}
   CrForms = {"esc-dq", "esc-z", "long0", "cmt0"}
-  CfgNames = {"s4", "tab", "s2-double"}
+  CfgNames = {"s4", "s2-double"}
 INVARIANT Emit
